@@ -8,7 +8,7 @@ import (
 
 // C12: Close ends everything promptly and for good (hubs and queue).
 
-//verif: replay=schedule unwind=8 cover=closed-while-parked bounds="TellHub: 1..2 goroutines in Receive with a never-cancelled context, one closer (nil or non-nil reason), every interleaving at channel/once operations; then a later Receive and a repeated Close"
+// verif: replay=schedule unwind=8 cover=closed-while-parked bounds="TellHub: 1..2 goroutines in Receive with a never-cancelled context, one closer (nil or non-nil reason), every interleaving at channel/once operations; then a later Receive and a repeated Close"
 func VH_C12_tellHubClose() bool {
 	h := NewTellHub[vAddr]()
 	n := vInt(1, 2)
@@ -46,7 +46,7 @@ func VH_C12_tellHubClose() bool {
 	return true
 }
 
-//verif: replay=schedule unwind=8 cover=closed-while-parked bounds="AskHub: 1..2 goroutines in ServeAsk with a never-cancelled context, one closer (Close() or CloseWithError(reason)), every interleaving; then a later ServeAsk/Deliver and a repeated Close"
+// verif: replay=schedule unwind=8 cover=closed-while-parked bounds="AskHub: 1..2 goroutines in ServeAsk with a never-cancelled context, one closer (Close() or CloseWithError(reason)), every interleaving; then a later ServeAsk/Deliver and a repeated Close"
 func VH_C12_askHubClose() bool {
 	h := NewAskHub[vAddr]()
 	n := vInt(1, 2)
@@ -85,7 +85,7 @@ func VH_C12_askHubClose() bool {
 	return true
 }
 
-//verif: replay=schedule unwind=8 cover=closed bounds="Queue(cap 2): 0..2 queued messages, 1 goroutine in Receive, Close; later Receive/Deliver refuse; repeated Close"
+// verif: replay=schedule unwind=8 cover=closed bounds="Queue(cap 2): 0..2 queued messages, 1 goroutine in Receive, Close; later Receive/Deliver refuse; repeated Close"
 func VH_C12_queueClose() bool {
 	q := NewQueue[vAddr](2, 4)
 	k := vInt(0, 2)
